@@ -94,8 +94,21 @@ def run_case(ctx, cid, P):
         modes = rng.choice([["psk_dhe_ke", "psk_ke"], ["psk_ke"],
                             ["psk_dhe_ke"]])
         cs.psk_modes = list(modes)
+        ss.psk_modes = list(rng.choice([["psk_dhe_ke", "psk_ke"],
+                                        ["psk_dhe_ke", "psk_ke"],
+                                        ["psk_ke"], ["psk_dhe_ke"]]))
         if rng.random() < 0.3:
             skey = None
+    resume = kind in ("cert", "srp", "srp_cert", "anon") and \
+        rng.random() < 0.3
+    cache = None
+    if resume:
+        from tlslite.sessioncache import SessionCache
+        from vt.flavours import TK
+        if rng.random() < 0.5:
+            cache = SessionCache()
+        else:
+            ss.ticketKeys = TK
     try:
         vcs, vss = cs.validate(), ss.validate()
     except ValueError:
@@ -103,7 +116,7 @@ def run_case(ctx, cid, P):
         return
     fl = Flavor(kind, skey=skey, ckey=ckey, req_cert=req_cert, cset=cs,
                 sset=ss, alpn_c=alpn_c, alpn_s=alpn_s, npn_c=npn_c,
-                npn_s=npn_s, sni=sni)
+                npn_s=npn_s, sni=sni, session_cache=cache)
     p = Pair()
     try:
         tc, ts = p.handshake(fl)
@@ -234,6 +247,24 @@ def run_case(ctx, cid, P):
         if c.ecdhCurve != s.ecdhCurve:
             ctx.violation(dict(fkey, clause="view_mismatch", field="group"),
                           desc, "%r vs %r" % (c.ecdhCurve, s.ecdhCurve))
+        # which PSK key exchange mode did the ServerHello select?
+        for t, body in wire.plain_handshake(p.link.records, "s2c"):
+            if t != 2:
+                continue
+            sh = wire.parse_server_hello(body)
+            if sh.is_hrr:
+                continue
+            if wire.ext(sh, 41) is not None:
+                mode = "psk_dhe_ke" if wire.ext(sh, 51) is not None \
+                    else "psk_ke"
+                ctx.count("psk_mode:" + mode)
+                for role, vset in (("client", vcs), ("server", vss)):
+                    if mode not in vset.psk_modes:
+                        ctx.violation(dict(fkey, clause="outside_policy",
+                                           role=role, dim="psk_mode",
+                                           ver="TLS1.3"), desc,
+                                      "%s negotiated, %s allows %r" % (
+                                          mode, role, vset.psk_modes))
         if c.serverSigAlg is not None:
             scheme = wire.scheme_info(c.serverSigAlg)
         if c.serverSigAlg != s.serverSigAlg and kind != "psk":
@@ -281,6 +312,67 @@ def run_case(ctx, cid, P):
     ctx.sample({"case": cid, "kind": kind, "skey": skey,
                 "negotiated": [pair.VNAME[ver], su.name, group, scheme],
                 "client_overrides": cd, "server_overrides": sd})
+    if resume:
+        resumed_agreement(ctx, p, fl, fkey, desc)
+
+
+def resumed_agreement(ctx, p, fl, fkey, desc):
+    """the same two parties connect again offering the session: both ends of
+    the second connection must agree as well (whether or not it resumed)"""
+    from vt.flavours import pump
+    try:
+        pump(p, p.c, p.csock)
+    except Exception:   # noqa
+        pass
+    t1 = drive.Task("cc", drive.aclose(p.c), p.csock)
+    t2 = drive.Task("sc", drive.aclose(p.s), p.ssock)
+    drive.run([t1, t2], p.link)
+    sess = p.c.session
+    if sess is None or not sess.valid():
+        ctx.count("resume_source_unusable")
+        return
+    fl.session = sess
+    p2 = Pair()
+    tc, ts = p2.handshake(fl)
+    ctx.ev()
+    if tc.status != "done" or ts.status != "done":
+        ctx.count("second_connection_failed")
+        ctx.cell("outcome", "second|%s|%s" % (outcome(tc), outcome(ts)))
+        return
+    c, s = p2.c, p2.s
+    ctx.count("second_connection:" + ("resumed" if c.resumed else "full"))
+    fk = dict(fkey, phase="second", resumed=bool(c.resumed))
+    if bool(c.resumed) != bool(s.resumed):
+        ctx.violation(dict(fk, clause="view_mismatch", field="resumed"),
+                      desc, "client %r server %r" % (c.resumed, s.resumed))
+    vc, vs = pair.view(c), pair.view(s)
+    for k in vc:
+        if k != "resumed" and vc[k] != vs[k]:
+            ctx.violation(dict(fk, clause="view_mismatch", field=k), desc,
+                          "%s differs: %r vs %r" % (k, vc[k], vs[k]))
+    if tuple(c.version) >= (3, 1):
+        for lab, ln in ((b"EXPORTER-vt-one", 20), (b"EXPORTER-vt-2", 64)):
+            try:
+                a = bytes(c.keyingMaterialExporter(bytearray(lab), ln))
+                b = bytes(s.keyingMaterialExporter(bytearray(lab), ln))
+            except Exception as e:   # noqa
+                ctx.violation(dict(fk, clause="exporter_raises",
+                                   exc=type(e).__name__), desc, repr(e))
+                continue
+            if a != b or len(a) != ln:
+                ctx.violation(dict(fk, clause="view_mismatch",
+                                   field="exporter"), desc,
+                              "exporter differs on the second connection")
+    for name, a, b in (
+            ("ems_conn", c.extendedMasterSecret, s.extendedMasterSecret),
+            ("etm_conn", bool(c.encryptThenMAC), bool(s.encryptThenMAC)),
+            ("serverName", c.session.serverName or None,
+             s.session.serverName or None)):
+        if a != b:
+            ctx.violation(dict(fk, clause="view_mismatch", field=name), desc,
+                          "%s differs: %r vs %r" % (name, a, b))
+    ctx.cell("outcome", "second|%s|%s" % (pair.VNAME[tuple(c.version)],
+                                         "resumed" if c.resumed else "full"))
 
 
 def judge_failure(ctx, p, tc, ts, oc, os_, fkey, desc):
